@@ -195,14 +195,15 @@ def Run.reduce (r : Run) (c : Case) (call : Call GInt) (resPtr : Int) : Run :=
       if gv.m = 0 ∨ gv.n = 0 then { r with rval := some unwritten }
       else
         -- y(0) := 1 * Σ_l A(0,l) x(l) + 0 * y(0), A(0,l) = x[l*incx]
-        let v : GInt := sumZ gv.n (fun l => mem (gv.a + l * gv.lda) * mem (gv.x + l * gv.incx))
-        store r v
+        match Front.dotResult c.ty call mem with
+        | some v => store r v
+        | none => { r with rval := some unwritten }
   match call with
   | .dot g =>
-    if c.ty = 'd' then store { r with lines := r.lines.push (callLine c.ty call) } (dotVal false g.n g.x g.incx g.y g.incy mem)
+    if c.ty = 'd' then store { r with lines := r.lines.push (callLine c.ty call) } ((Front.dotResult c.ty call mem).getD 0)
     else viaGemv r g
   | .dotu g => viaGemv r g
-  | .dotc g => store { r with lines := r.lines.push (callLine c.ty call) } (dotVal true g.n g.x g.incx g.y g.incy mem)
+  | .dotc _ => store { r with lines := r.lines.push (callLine c.ty call) } ((Front.dotResult c.ty call mem).getD 0)
   | .nrm2 g =>
     let v : Int := (List.range g.n.toNat).foldl (fun (acc : Int) (i : Nat) => let x := mem (g.x + Int.ofNat i * g.incx); acc + x.re * x.re + x.im * x.im) 0
     { r with lines := r.lines.push (callLine c.ty call), rval := some (some ⟨v, 0⟩) }
